@@ -20,7 +20,7 @@ fn spec0(tier: Tier) -> RunSpec {
         8,
         "the C04 input space (G-REQ with mutations, three buffer sizes, three application kinds) on both entry points and in both CORS modes (allow-all on; allow-all off with a configured origin list). \
 Oracle on the M-HTTP header multiset of every response: exactly once each X-Content-Type-Options: nosniff, X-Frame-Options: SAMEORIGIN, Cache-Control containing no-store and no-cache, Accept-Ranges: bytes, \
-a non-empty Accept-CH, and Vary whose comma-separated members include Origin. Non-trivial = status != 200 or response to a mutated/hostile request; distinct by case. Crashed requests are C04's.",
+a non-empty Accept-CH, and Vary whose comma-separated members include Origin. A quarter of the production-entry cases with the default buffer and the real application are sent to the release binary over loopback instead of Server::process on the mock transport (same oracle; a server-side panic shows as a connection closed without response bytes). Non-trivial = status != 200 or response to a mutated/hostile request; distinct by case. Crashed requests are C04's.",
         &["a response produced by a custom Application that builds its own header list is outside the statement; the Fixed application used here calls Header::get_header_list like the documented example"],
         if tier == Tier::Quick { 900 } else { 14400 },
     )
@@ -79,13 +79,17 @@ pub fn eval(ctx: &Ctx, c: &Case) -> Verdict {
 pub fn run(ctx: &Ctx) {
     crate::fw::inproc::init_env();
     let _tree = match fixed_docroot() { Ok(t) => t, Err(e) => { ctx.inconclusive(&format!("docroot: {}", e)); return; } };
-    let strat = (server_case_strategy(true), any::<bool>()).prop_map(|(server, cors_restricted)| Case { server, cors_restricted });
+    // the binary runs with the default (allow-all) CORS configuration: only such cases are sent to it
+    let strat = (server_case_strategy(true), any::<bool>()).prop_map(|(mut server, cors_restricted)| { if cors_restricted { server.binary = false; } Case { server, cors_restricted } });
+    super::common::binary_begin(ctx, &_tree.root);
     ctx.prop("responses", ctx.share(ctx.scale(40_000, 3_000_000)), strat, |c| eval(ctx, c));
+    super::common::binary_end(ctx);
     std::env::set_current_dir("/").ok();
 }
 
 pub fn replay(ctx: &Ctx, _section: &str, case: &Value) -> Verdict {
     crate::fw::inproc::init_env();
     let _tree = match fixed_docroot() { Ok(t) => t, Err(e) => return Verdict::fail("replay-docroot-failed", e.to_string()) };
+    if super::common::replay_wants_binary(case) { super::common::binary_begin(ctx, &_tree.root); }
     match serde_json::from_value::<Case>(case.clone()) { Ok(c) => eval(ctx, &c), Err(e) => Verdict::fail("replay-unreadable", e.to_string()) }
 }
